@@ -281,6 +281,8 @@ func (db *SpecDB) LoadFile(path, pkgPath string) error {
 					ax.Arith = "bv"
 				case "math":
 					ax.Arith = "math"
+				case "any":
+					ax.Arith = "any" // stated with operators that mean the same in both integer modes
 				case "using":
 					for j+1 < len(head) && head[j+1] != "prop" {
 						ax.Uses = append(ax.Uses, head[j+1])
